@@ -570,6 +570,9 @@ def remove_csv():
     tb.infer_dtype_from_array = _REAL["infer"]
 
 
+STR_VOCAB = ["", "a", "-1", "nan"]
+
+
 def csv_harness(ctx, cfg):
     ids = list(cfg["ids"])
     n = len(ids)
@@ -582,18 +585,23 @@ def csv_harness(ctx, cfg):
         kind, v = dom[ctx.choose(len(dom), f"parent{i}")]
         parents.append(v)
         pcode.append([kind, None if v is NA else v])
-    colspec = cfg["columns"]  # name -> "id" | "parent" | "int" | "real"
-    data, sym = {}, {}
+    colspec = cfg["columns"]  # name -> "id" | "parent" | "int" | "real" | "str"
+    data, sym, strs = {}, {}, {}
     for name, kind in colspec.items():
         if kind == "id":
             data[name] = list(ids)
         elif kind == "parent":
             data[name] = list(parents)
+        elif kind == "str":
+            # a text column: every cell one of a few strings, the empty string among them (decided by forks)
+            strs[name] = [STR_VOCAB[ctx.choose(len(STR_VOCAB), f"str_{name}_{i}")] for i in range(n)]
+            data[name] = list(strs[name])
         else:
             col = _column(name, n, kind)
             sym[name] = col
             data[name] = [x for x in col]
     name_map = dict(cfg["name_map"])
+    ctx.input("str_cells", strs)
     ctx.input("route", "csv")
     ctx.input("ids", ids)
     ctx.input("parents", pcode)
@@ -644,6 +652,9 @@ def csv_harness(ctx, cfg):
             if isinstance(src, list):
                 want = [sym[c][i] for c in src]
                 got = list(got) if got is not None else None
+            elif src in strs:
+                cs.append(z3.BoolVal(isinstance(got, str) and got == strs[src][i]))
+                continue
             else:
                 want = sym[src][i]
             cs.append(same_value(got, want))
@@ -679,6 +690,9 @@ def csv_replay(f):
             data[name] = ids
         elif kind == "parent":
             data[name] = parents
+        elif kind == "str":
+            cols[name] = list(inp["str_cells"][name])
+            data[name] = cols[name]
         else:
             cols[name] = np.array([_num(v) for v in inp["cells"][name]], dtype=np.int64 if kind == "int" else float)
             data[name] = cols[name]
@@ -718,6 +732,10 @@ def csv_replay(f):
             for i in range(n):
                 got = g.nodes[ren[ids[i]]].get(std)
                 want = [cols[c][i] for c in src] if isinstance(src, list) else cols[src][i]
+                if isinstance(want, str):
+                    if not (isinstance(got, str) and got == want):
+                        return True, detail + f" row {i}: {std}={got!r}, source {src}={want!r}"
+                    continue
                 if got is None or not _eq(got, want):
                     return True, detail + f" row {i}: {std}={got!r}, source {src}={np.asarray(want).tolist()}"
         return False, detail
